@@ -197,6 +197,11 @@ func TestVerif_C01(t *testing.T) {
 			t.Logf("replay big %v -> %s", c.Word, c01Big(c.Word[0], c.Word[1:]))
 			return
 		}
+		if c.Level < 0 {
+			// key-name form sweeps: re-run all of them (a few hundred executions)
+			t.Logf("replay key-name form sweeps: %d executions", c01Special(func() bool { return true }))
+			return
+		}
 		items, c2 := c01Word(c, sigma[c.Level])
 		t.Logf("replay %v -> %s", c2.Names, c01Run(c2, items))
 		return
@@ -235,31 +240,9 @@ func TestVerif_C01(t *testing.T) {
 			}
 		}
 	}
-	// every LZF back-reference relation as key name and as value (the parser decompresses key names)
-	for _, ls := range rdbcat.LZFFamily() {
-		if mine() {
-			it := rdbgen.Key(ls, rdbgen.StringVal(ls), rdbgen.KeyOpts{})
-			for _, mode := range []string{"whole", "byte"} {
-				c := c01Case{Sub: "lzf", Version: 9, Level: -1, Mode: mode, Names: []string{it.Name + ":" + ls.Form}}
-				o := c01Run(c, []rdbgen.Item{it})
-				n++
-				nontriv++
-				ev.Outcome(o)
-			}
-		}
-	}
-	// every string form of the catalog (integer encodings at both ends of each width, length-form
-	// boundaries, LZF) as key name: values are delivered as file bytes, key names are decoded
-	for _, ks := range append(rdbcat.Strings(), c01IntNames()...) {
-		if mine() {
-			it := rdbgen.Key(ks, rdbgen.StringVal(rdbgen.RawStr([]byte("v"), rdbgen.LCanon)), rdbgen.KeyOpts{})
-			c := c01Case{Sub: "keyform", Version: 9, Level: -1, Mode: "whole", Names: []string{it.Name + ":" + ks.Form + ":" + c01Short(ks.Val)}}
-			o := c01Run(c, []rdbgen.Item{it})
-			n++
-			nontriv++
-			ev.Outcome(o)
-		}
-	}
+	sp := c01Special(mine)
+	n += sp
+	nontriv += sp
 	// length 2 over the full alphabet (thorough) / full x reduced both ways (quick)
 	full := len(sigma[1])
 	if ev.Thorough() {
@@ -485,4 +468,55 @@ func c01Short(b []byte) string {
 		return fmt.Sprintf("%q..(%d)", b[:16], len(b))
 	}
 	return fmt.Sprintf("%q", b)
+}
+
+// c01Special: sweeps over key-name forms (outside the word alphabet). Returns executions run.
+func c01Special(mine func() bool) (n int64) {
+	// every LZF back-reference relation as key name and as value (the parser decompresses key names)
+	for _, ls := range rdbcat.LZFFamily() {
+		if mine() {
+			it := rdbgen.Key(ls, rdbgen.StringVal(ls), rdbgen.KeyOpts{})
+			for _, mode := range []string{"whole", "byte"} {
+				c := c01Case{Sub: "lzf", Version: 9, Level: -1, Mode: mode, Names: []string{it.Name + ":" + ls.Form}}
+				o := c01Run(c, []rdbgen.Item{it})
+				n++
+					ev.Outcome(o)
+			}
+		}
+	}
+	// every string form of the catalog (integer encodings at both ends of each width, length-form
+	// boundaries, LZF) as key name: values are delivered as file bytes, key names are decoded
+	for _, ks := range append(rdbcat.Strings(), c01IntNames()...) {
+		if mine() {
+			it := rdbgen.Key(ks, rdbgen.StringVal(rdbgen.RawStr([]byte("v"), rdbgen.LCanon)), rdbgen.KeyOpts{})
+			c := c01Case{Sub: "keyform", Version: 9, Level: -1, Mode: "whole", Names: []string{it.Name + ":" + ks.Form + ":" + c01Short(ks.Val)}}
+			o := c01Run(c, []rdbgen.Item{it})
+			n++
+			ev.Outcome(o)
+		}
+	}
+	// all those key-name forms together in one file, in both orders: every record is held until the
+	// file has been parsed (a decoded key name must not share storage with a later one)
+	for _, rev := range []bool{false, true} {
+		if !mine() {
+			continue
+		}
+		forms := append(append(rdbcat.LZFFamily(), rdbcat.Strings()...), c01IntNames()...)
+		var its []rdbgen.Item
+		var names []string
+		for i := range forms {
+			ks := forms[i]
+			if rev {
+				ks = forms[len(forms)-1-i]
+			}
+			it := rdbgen.Key(ks, rdbgen.StringVal(rdbgen.RawStr([]byte("v"), rdbgen.LCanon)), rdbgen.KeyOpts{})
+			its = append(its, it)
+			names = append(names, ks.Form)
+		}
+		c := c01Case{Sub: "keyforms-file", Version: 9, Level: -1, Mode: "whole", Names: names}
+		o := c01Run(c, its)
+		n++
+		ev.Outcome(o)
+	}
+	return n
 }
